@@ -13,6 +13,8 @@ import (
 	"fmt"
 	"path"
 	"strings"
+	"sync"
+	"sync/atomic"
 	"testing"
 
 	metav1 "k8s.io/apimachinery/pkg/apis/meta/v1"
@@ -55,9 +57,11 @@ func attrs(q *Req) authorizer.Attributes {
 // ---------- the real plugin ----------
 
 type admitter struct {
-	plugin admission.MutationInterface
-	oi     admission.ObjectInterfaces
-	scheme *runtime.Scheme
+	inflight   int32
+	overlapped int64 // admissions that started while another one was inside Admit
+	plugin     admission.MutationInterface
+	oi         admission.ObjectInterfaces
+	scheme     *runtime.Scheme
 }
 
 func newAdmitter() (*admitter, error) {
@@ -91,7 +95,11 @@ func (a *admitter) admit(in, old *proxyv1alpha1.UpstreamCluster) (out *proxyv1al
 	} else {
 		rec = admission.NewAttributesRecord(out, old.DeepCopy(), ucKind, "", out.Name, ucResource, "", admission.Update, &metav1.UpdateOptions{}, false, u)
 	}
+	if n := atomic.AddInt32(&a.inflight, 1); n > 1 {
+		atomic.AddInt64(&a.overlapped, 1)
+	}
 	panicked = vkit.Safely(func() { err = a.plugin.Admit(context.Background(), rec, a.oi) })
+	atomic.AddInt32(&a.inflight, -1)
 	return
 }
 
@@ -312,6 +320,11 @@ func TestCheck(t *testing.T) {
 		selfTest(r, a)
 		perField(r, a)
 		wholeRules(r, a)
+		concurrentAdmissions(r, a)
+		r.Set("admissions_overlapping_another", atomic.LoadInt64(&a.overlapped))
+		r.Require(atomic.LoadInt64(&a.overlapped) > 1000, "admissions hardly ever overlapped (the plugin instance is shared by all API requests)")
+		r.Require(r.Counter("concurrent_same_object_admissions") >= 10000, "the concurrent-admission scenario did not run")
+		r.Require(r.Counter("long_lists_30_to_150_entries") >= 100 && r.Counter("policies_without_rules") >= 100, "long lists / empty policies were not generated")
 		r.Require(r.Counter("field_probe_cases") > 50000, "too few per-field cases")
 		r.Require(r.Counter("rule_probe_cases") > 100000, "too few whole-rule cases")
 		r.Require(r.Counter("rule_probe_matched") > 1000 && r.Counter("rule_probe_unmatched") > 1000, "probes do not exercise both outcomes")
@@ -345,6 +358,9 @@ var urlAlphabet = []string{"*", "/logs/", "/logs", "//logs", "/a/./b", "/a/../lo
 	"-/logs/", "-/logs", "-//logs", "-/a/./b", "-/logs/*", "-/"}
 
 var shapeAlphabet = []string{"a", "A", " a", "a ", "-A", "-a", "A*", "a*"}
+
+// entries at the edge of the list syntax: inverted star, double dash, double star, leading star, non-ASCII, inner blank
+var oddAlphabet = []string{"-*", "--a", "**", "*a", "a", "-a", "*", "é", "-é", "a b"}
 
 func enumLists(alpha []string, maxLen int, fn func([]string)) {
 	fn(nil)
@@ -406,14 +422,22 @@ func perField(r *vkit.R, a *admitter) {
 			lists, only = append(lists, l), append(only, "")
 		}
 	})
+	nOdd := 0
+	enumLists(oddAlphabet, maxLen, func(l []string) {
+		if len(l) > 0 {
+			lists, only = append(lists, l), append(only, "")
+			nOdd++
+		}
+	})
+	r.Set("per_field_odd_syntax_lists", nOdd)
 
-	reqVals := []string{"a", "b", "c", "", "a1", "a/s", "b/s", "b/t", "-a", "-", "*", "A", " a", "a "}
+	reqVals := []string{"a", "b", "c", "", "a1", "a/s", "b/s", "b/t", "-a", "-", "*", "A", " a", "a ", "é", "a b", "**", "*a", "xa", "--a"}
 	urlVals := []string{"/logs", "/logs/", "/logs//a", "/logs/a", "/a/./b", "/a/b", "/", "//logs", "/a/../logs", "/logsx", "/a"}
-	groupSets := [][]string{nil, {"a"}, {"b"}, {"c"}, {"a", "b"}, {"a", "c"}, {"c", "d"}, {"a", "b", "c"}, {""}, {"a1"}, {"-a"}, {"A"}, {" a"}, {"a "}}
+	groupSets := [][]string{nil, {"a"}, {"b"}, {"c"}, {"a", "b"}, {"a", "c"}, {"c", "d"}, {"a", "b", "c"}, {""}, {"a1"}, {"-a"}, {"A"}, {" a"}, {"a "}, {"é"}, {"a b"}, {"*"}, {"a", "a"}, {"xa", "é"}}
 	type resReq struct{ res, sub string }
-	resReqs := []resReq{{"a", ""}, {"b", ""}, {"c", ""}, {"a", "s"}, {"b", "s"}, {"b", "t"}, {"a1", ""}, {"", ""}, {"*", "s"}, {"a", "*"}, {"-a", ""}, {"A", ""}, {" a", ""}, {"a ", ""}}
+	resReqs := []resReq{{"a", ""}, {"b", ""}, {"c", ""}, {"a", "s"}, {"b", "s"}, {"b", "t"}, {"a1", ""}, {"", ""}, {"*", "s"}, {"a", "*"}, {"-a", ""}, {"A", ""}, {" a", ""}, {"a ", ""}, {"é", ""}, {"a b", ""}, {"**", ""}, {"*a", ""}, {"xa", ""}, {"é", "s"}}
 	saSets := [][]proxyv1alpha1.ServiceAccountRef{nil, {{Namespace: "n", Name: "x"}}, {{Namespace: "", Name: "x"}}, {{Namespace: "n", Name: "x"}, {Namespace: "m", Name: "y"}}}
-	userVals := []string{"a", "b", "c", "", "a1", "-a", "system:serviceaccount:n:x", "system:serviceaccount:m:y", "system:serviceaccount::x", "A", " a", "a "}
+	userVals := []string{"a", "b", "c", "", "a1", "-a", "system:serviceaccount:n:x", "system:serviceaccount:m:y", "system:serviceaccount::x", "A", " a", "a ", "é", "a b", "**", "*a", "xa", "*"}
 
 	// the probes of a field vary only that field's attribute; everything else is fixed and matched by the match-all rule
 	base := Req{Verb: "get", User: "u", Groups: []string{"g"}, IsResource: true, Group: "apps", Resource: "pods", Name: "n1", Path: "/apis/apps/v1/pods"}
@@ -619,14 +643,16 @@ func idempotence(r *vkit.R, a *admitter, st *proxyv1alpha1.UpstreamCluster, clas
 // ---------- random whole rules ----------
 
 var (
-	verbs     = []string{"get", "list", "watch", "create", "update", "delete", "patch"}
+	verbs     = []string{"get", "list", "watch", "create", "update", "delete", "patch", "deletecollection", "GET", "proxy"}
 	apiGroups = []string{"", "apps", "batch", "x.io"}
 	resources = []string{"pods", "deployments", "nodes", "jobs", "events"}
 	subs      = []string{"", "", "", "status", "log", "scale"}
-	names     = []string{"", "n1", "n2", "nginx"}
-	users     = []string{"admin", "admin1", "bob", "alice", "system:serviceaccount:kube-system:sa1", "system:serviceaccount:default:sa2", "system:kube-scheduler"}
-	ugroups   = []string{"system:authenticated", "system:masters", "dev", "ops", "system:serviceaccounts"}
-	paths     = []string{"/healthz", "/healthz/etcd", "/version", "/metrics", "/apis", "/", "/readyz/x/y", "/logs/", "/logs", "//healthz", "/healthz//etcd", "/a/./b", "/a/../version", "/readyz/"}
+	names     = []string{"", "n1", "n2", "nginx", "Nginx", "kube-root-ca.crt", "system:node:[::1]", strings.Repeat("n", 253)}
+	users     = []string{"admin", "admin1", "bob", "alice", "system:serviceaccount:kube-system:sa1", "system:serviceaccount:default:sa2", "system:kube-scheduler",
+		"Admin", "CN=Foo,O=Bar", "user@example.com", "system:node:[::1]", "héloïse", "a%2Fb", strings.Repeat("u", 253)}
+	ugroups = []string{"system:authenticated", "system:masters", "dev", "ops", "system:serviceaccounts", "Dev", "system:serviceaccounts:kube-system", "oidc:team/a", ""}
+	paths   = []string{"/healthz", "/healthz/etcd", "/version", "/metrics", "/apis", "/", "/readyz/x/y", "/logs/", "/logs", "//healthz", "/healthz//etcd", "/a/./b", "/a/../version", "/readyz/",
+		"/a%2Fb", "/[::1]/x", "/Healthz", "/openapi/v2", "/" + strings.Repeat("p", 300)}
 )
 
 func genList(g *vkit.Rand, vals []string, allowGlob, allowStarSub bool) []string {
@@ -639,6 +665,9 @@ func genList(g *vkit.Rand, vals []string, allowGlob, allowStarSub bool) []string
 		return []string{}
 	}
 	n := g.Range(1, 4)
+	if g.Chance(0.015) { // a long list: many entries, many duplicates, '*' possibly deep inside
+		n = g.Range(30, 150)
+	}
 	mode := g.Intn(4) // 0 positive, 1 inverted, 2 mixed, 3 positive
 	var out []string
 	for i := 0; i < n; i++ {
@@ -807,15 +836,27 @@ func wholeRules(r *vkit.R, a *admitter) {
 		uc := &proxyv1alpha1.UpstreamCluster{ObjectMeta: metav1.ObjectMeta{Name: "c17"}}
 		np := g.Range(1, 4)
 		pl := &pools{}
-		nRules := 0
+		nRules, emptyPolicies, longLists := 0, 0, 0
 		for p := 0; p < np; p++ {
 			pol := proxyv1alpha1.DispatchPolicy{FlowControlSchemaName: fmt.Sprintf("p%d", p)}
 			if g.Bool() {
 				pol.Strategy = proxyv1alpha1.RoundRobin
 			}
 			nr := g.Range(1, 3)
+			if g.Chance(0.03) {
+				nr = 0 // a policy without rules
+				emptyPolicies++
+			}
 			for k := 0; k < nr; k++ {
 				ru := genRule(g)
+				if g.Chance(0.01) {
+					ru = proxyv1alpha1.DispatchPolicyRule{} // a rule with every field nil
+				}
+				for _, f := range fields {
+					if len(*f.get(&ru)) >= 30 {
+						longLists++
+					}
+				}
 				pl.addRule(&ru)
 				pol.Rules = append(pol.Rules, ru)
 				nRules++
@@ -835,6 +876,8 @@ func wholeRules(r *vkit.R, a *admitter) {
 			return
 		}
 		r.Count("rules_admitted_"+class, nRules)
+		r.Count("policies_without_rules", emptyPolicies)
+		r.Count("long_lists_30_to_150_entries", longLists)
 		changed := 0
 		full := r.DistinctFull()
 		var ruleHash [][]uint64 // 0 = trivial rule (not counted as distinct)
@@ -902,6 +945,68 @@ func wholeRules(r *vkit.R, a *admitter) {
 			r.Sample(map[string]interface{}{"kind": "whole-rule", "operation": class, "submitted": uc.Spec.DispatchPolicies[0].Rules[0], "stored": st.Spec.DispatchPolicies[0].Rules[0], "probe": genProbe(g, pl)})
 		}
 	})
+}
+
+// concurrentAdmissions: the API server calls the one plugin instance from many request goroutines. The same objects are
+// admitted sequentially and then by 16 goroutines at once (each goroutine all objects, in its own order); every concurrent
+// result must be the stored form the sequential admission produced. Objects are dominated by inverted-only and mixed lists
+// (the paths of the normaliser that build intermediate lists).
+func concurrentAdmissions(r *vkit.R, a *admitter) {
+	g := r.Rng.Fork("concurrent")
+	n := r.N(800, 5000)
+	objs := make([]*proxyv1alpha1.UpstreamCluster, n)
+	want := make([]string, n)
+	for i := range objs {
+		uc := &proxyv1alpha1.UpstreamCluster{ObjectMeta: metav1.ObjectMeta{Name: fmt.Sprintf("c17-%d", i)}}
+		pol := proxyv1alpha1.DispatchPolicy{}
+		for k, nr := 0, g.Range(1, 3); k < nr; k++ {
+			ru := genRule(g)
+			if g.Chance(0.7) { // inverted-only lists of different lengths in several fields
+				for _, f := range fields[:g.Range(1, len(fields))] {
+					var l []string
+					for j, m := 0, g.Range(1, 6); j < m; j++ {
+						l = append(l, fmt.Sprintf("-v%d", g.Intn(1000)))
+					}
+					*f.get(&ru) = l
+				}
+			}
+			pol.Rules = append(pol.Rules, ru)
+		}
+		uc.Spec.DispatchPolicies = []proxyv1alpha1.DispatchPolicy{pol}
+		objs[i] = uc
+		st, err, p := a.admit(uc, nil)
+		if err != nil || p != nil {
+			r.Inconclusive(fmt.Sprintf("concurrent scenario: sequential Admit failed: %v %v", err, p))
+			return
+		}
+		want[i] = mustJSON(st.Spec.DispatchPolicies)
+	}
+	var wg sync.WaitGroup
+	for w := 0; w < 16; w++ {
+		wg.Add(1)
+		order := g.Perm(n)
+		go func() {
+			defer wg.Done()
+			for _, i := range order {
+				st, err, p := a.admit(objs[i], nil)
+				r.Count("concurrent_same_object_admissions", 1)
+				if p != nil {
+					r.Violation("C17/admit-panic/concurrent", fmt.Sprintf("Admit panicked (%v) while other admissions were running, on %s", p, mustJSON(objs[i].Spec.DispatchPolicies)), map[string]interface{}{"object": objs[i]})
+					continue
+				}
+				if err != nil {
+					r.Count("admit_errors", 1)
+					continue
+				}
+				if got := mustJSON(st.Spec.DispatchPolicies); got != want[i] {
+					r.Violation("C17/concurrency/stored-form-differs-from-sequential-admission", fmt.Sprintf("submitted %s: admitted alone it is stored as %s, admitted while other admissions ran as %s", mustJSON(objs[i].Spec.DispatchPolicies), want[i], got),
+						map[string]interface{}{"submitted": objs[i].Spec.DispatchPolicies, "sequential": want[i], "concurrent": got})
+				}
+			}
+		}()
+	}
+	wg.Wait()
+	r.Eval(16 * n)
 }
 
 func policyIndex(p *proxyv1alpha1.DispatchPolicy) int {
